@@ -57,7 +57,8 @@ def evaluate(pyhf, kind, obj, k):
         lp = obj.logpdf(pars, data)
         return [tl.tolist(e), tl.tolist(lp)], e
     if kind in INTERP:
-        al = tl.astensor([[-1.5, 0.25 * (k % 5)], [2.0, -0.5]])
+        # the shape of the alpha sets alternates between evaluations (what an interpolator precomputed for one shape must not leak)
+        al = tl.astensor([[-1.5, 0.25 * (k % 5)], [2.0, -0.5]] if k % 2 == 0 else [[-1.5, 0.25 * (k % 5), 1.0], [2.0, -0.5, -1.0]])
         r = obj(al)
         return tl.tolist(r), r
     st = obj.stitch([tl.astensor([1.0, 4.0]), tl.astensor([2.0]), tl.astensor([3.0, 5.0])])
